@@ -208,4 +208,407 @@ theorem cur_eq_lit {text : Bytes} {s : St} (h : SimOK text s) (ci : Int) (c : Na
   · rw [h1]; omega
   · rw [h1, h2]; simp only [EOF]; omega
 
+
+/-! ### agreement inside loops and joined conditionals -/
+
+section
+variable {text : Bytes} {path : String} {cb : Syn.Proc} {fuel : Nat} {s : St}
+
+/-- agreement of a Go loop / joined conditional (fall through with the state `emb c s1` | return) with a model computation `A` -/
+def FlowAgree {β γ σ : Type} (text : Bytes) (path : String) (cb : Syn.Proc) (fuel : Nat) (emb : γ → St → σ)
+    (X : Outcome (Flow σ (parser.Parser × β × directives.GoError))) (A : Res γ) : Prop :=
+  match A with
+  | .ok c s1 => X = .ok (Flow.next (emb c s1)) ∧ Inv text fuel s1
+  | .err e s1 => e ≠ [] ∧ ∃ pv, X = .ok (Flow.ret (goParser text path cb s1, pv, goErr text path e))
+
+theorem flow_ok {β γ σ : Type} {emb : γ → St → σ} {st : σ} {c : γ} {s1 : St} (hst : st = emb c s1) (hi : Inv text fuel s1) :
+    FlowAgree (β := β) text path cb fuel emb (.ok (Flow.next st)) (.ok c s1) := by
+  subst hst; exact ⟨rfl, hi⟩
+
+theorem flow_err {β γ σ : Type} {emb : γ → St → σ} {p : parser.Parser} {pv : β} {g : directives.GoError} {e : Err} {s1 : St}
+    (hne : e ≠ []) (hp : p = goParser text path cb s1) (hg : g = goErr text path e) :
+    FlowAgree text path cb fuel emb (.ok (Flow.ret (p, pv, g))) (.err e s1 : Res γ) := by
+  subst hp hg; exact ⟨hne, pv, rfl⟩
+
+/-- function level: a `Flow` outcome followed by the rest of the function; the model's prefix `A` passes its error through -/
+theorem agree_flow {α β γ σ : Type} {conv : α → β} {emb : γ → St → σ}
+    {J : Flow σ (parser.Parser × β × directives.GoError) → Outcome (parser.Parser × β × directives.GoError)}
+    {X : Outcome (Flow σ (parser.Parser × β × directives.GoError))} {A : Res γ} {f : γ → St → Res α}
+    (hX : FlowAgree text path cb fuel emb X A)
+    (hK : ∀ c s1, Inv text fuel s1 → A = .ok c s1 → Agree text path cb conv (J (Flow.next (emb c s1))) (f c s1))
+    (hJ : ∀ v, J (Flow.ret v) = .ok v) :
+    Agree text path cb conv (X.bind J) (A.bind (fun e _ => e) f) := by
+  cases A with
+  | ok c s1 =>
+    obtain ⟨hx, hi⟩ := hX
+    rw [hx]
+    exact hK c s1 hi rfl
+  | err e s1 =>
+    obtain ⟨hne, pv, hx⟩ := hX
+    rw [hx]
+    simp only [Outcome.bind, hJ, Res.bind]
+    exact agree_err hne rfl rfl
+
+/-- inside a loop or a join: a `Flow` outcome followed by the rest of the body -/
+theorem flow_flow {β γ γ' σ σ' : Type} {emb : γ → St → σ} {emb' : γ' → St → σ'}
+    {J : Flow σ (parser.Parser × β × directives.GoError) → Outcome (Flow σ' (parser.Parser × β × directives.GoError))}
+    {X : Outcome (Flow σ (parser.Parser × β × directives.GoError))} {A : Res γ} {f : γ → St → Res γ'}
+    (hX : FlowAgree text path cb fuel emb X A)
+    (hK : ∀ c s1, Inv text fuel s1 → A = .ok c s1 → FlowAgree text path cb fuel emb' (J (Flow.next (emb c s1))) (f c s1))
+    (hJ : ∀ v, J (Flow.ret v) = .ok (Flow.ret v)) :
+    FlowAgree text path cb fuel emb' (X.bind J) (A.bind (fun e _ => e) f) := by
+  cases A with
+  | ok c s1 =>
+    obtain ⟨hx, hi⟩ := hX
+    rw [hx]
+    exact hK c s1 hi rfl
+  | err e s1 =>
+    obtain ⟨hne, pv, hx⟩ := hX
+    rw [hx]
+    simp only [Outcome.bind, hJ, Res.bind]
+    exact flow_err hne rfl rfl
+
+theorem Res.bind_assoc_id {α β γ} (r : Res α) (on : Err → St → Err) (f : α → St → Res β) (g : β → St → Res γ) :
+    (r.bind on f).bind (fun e _ => e) g = r.bind on (fun a s => (f a s).bind (fun e _ => e) g) := by
+  cases r <;> rfl
+
+theorem annotate_ne (desc : String) (start : Nat) (e : Err) (s : St) : annotate desc start e s ≠ [] := by
+  simp [annotate]
+
+theorem cur_eof' (h : Inv text fuel s) : goRune (cur s) = -1 ↔ atEOF s = true := h.1.cur_eof
+
+@[simp] theorem obind_ok {α β : Type} (a : α) (f : α → Outcome β) : Outcome.bind (.ok a) f = f a := rfl
+@[simp] theorem rbind_ok {α β} (a : α) (s : St) (on : Err → St → Err) (f : α → St → Res β) : (Res.ok a s).bind on f = f a s := rfl
+@[simp] theorem rbind_err {α β} (e : Err) (s : St) (on : Err → St → Err) (f : α → St → Res β) :
+    (Res.err e s : Res α).bind on f = .err (on e s) s := rfl
+
+/-! ### tactics for one call -/
+
+/-- closes the error case of a call (function level or inside a loop/join): Go returns `s.Annotate(err)`, the model
+`annotate desc start e s'` -/
+macro "call_err " hne:term : tactic =>
+  `(tactic| (simp only [obind_ok, rbind_ok, rbind_err, goParser_with, goParser_Scanner, decide_eq_true_eq, (goErr_ne_nil _ _ $hne), not_false_eq_true,
+      decide_true, decide_false, Bool.not_false, Bool.not_true, if_true, if_false, go_Range, go_Annotate, go_Scope]; first | exact agree_err (annotate_ne _ _ _ _) rfl rfl | exact agree_err $hne rfl rfl | exact flow_err (annotate_ne _ _ _ _) rfl rfl | exact flow_err $hne rfl rfl))
+
+/-- reduces the success case of a call -/
+macro "go_ok" : tactic =>
+  `(tactic| simp only [obind_ok, rbind_ok, rbind_err, goParser_with, goParser_Scanner, decide_true, Bool.not_true, Bool.false_eq_true, if_false,
+      go_Range, go_Scope, go_Current])
+
+/-- a call of a translated parser method: the error case is closed, the success case continues with the new state -/
+macro "pcall " t:term " , " hinv:term " , " ext:term " => " a:ident s:ident hm:ident h:ident : tactic =>
+  `(tactic| (rcases parse_step $t $hinv $ext with ⟨$a:ident, $s:ident, $hm:ident, hc, $h:ident⟩ | ⟨e, $s:ident, pv, $hm:ident, hne, hc⟩; rotate_left; (· (rw [hc, $hm:ident]; call_err hne)); rw [hc, $hm:ident]; go_ok))
+
+/-- a call of a scanner method -/
+macro "scall " t:term " , " hinv:term " , " ext:term " => " a:ident s:ident hm:ident h:ident : tactic =>
+  `(tactic| (rcases scan_step $t $hinv $ext with ⟨$a:ident, $s:ident, $hm:ident, hc, $h:ident⟩ | ⟨e, $s:ident, $hm:ident, hne, hc⟩; rotate_left; (· (rw [hc, $hm:ident]; call_err hne)); rw [hc, $hm:ident]; go_ok))
+
+/-- `ReadCharacter` with a literal rune -/
+theorem ReadCharacter_lit (h : SimOK text s) (ci : Int) (c : Nat) (hci : ci = (c : Int)) (hc : c < 2 ^ 31) :
+    scanner.Scanner.ReadCharacter (goScanner text path s) ci = .ok (goResR text path s.off (readCharacter c s)) ∧
+      Post text (readCharacter c s) := by
+  have := ReadCharacter_agrees (path := path) h (r := c) (by omega)
+  rw [goRune_of_lt hc] at this
+  subst hci
+  exact this
+
+/-! ### the small readers -/
+
+/-- `Parser.readWhitespace1` -/
+theorem readWhitespace1_agrees (h : Inv text fuel s) :
+    Agree text path cb (goRange text path) (parser.Parser.readWhitespace1 fuel (goParser text path cb s)) (readWhitespace1 s) := by
+  unfold parser.Parser.readWhitespace1 readWhitespace1
+  simp only [goParser_Scanner, go_Scope, go_Current, go_Range, go_isWhitespaceOrNewline h.1.cur_dom, decide_eq_true_eq, cur_eof' h]
+  by_cases hc : (!isWhitespaceOrNewline (cur s) && !atEOF s) = true
+  · have hc' : (!isWhitespaceOrNewline (cur s) && !decide (atEOF s = true)) = true := by simpa using hc
+    rw [if_pos hc', if_pos hc]
+    exact agree_err (by simp) rfl (by simp [goErr_single, goFrame, rng, Fmt_c_goRune h.1.cur_lt])
+  · have hc' : ¬ ((!isWhitespaceOrNewline (cur s) && !decide (atEOF s = true)) = true) := by simpa using hc
+    rw [if_neg hc', if_neg hc]
+    rcases scan_step (ReadWhile_agrees (path := path) h.1 h.2 pred_isWhitespace) h (readWhile_ext _ _) with
+      ⟨x, s1, hm, hcall, h1⟩ | ⟨e, s1, hm, hne, hcall⟩
+    · rw [hcall, hm]; exact agree_ok rfl rfl rfl
+    · rw [hcall, hm]; exact agree_err hne rfl rfl
+
+/-- `Parser.readRestOfWhitespaceLine` -/
+theorem readRestOfWhitespaceLine_agrees (h : Inv text fuel s) :
+    Agree text path cb (goRange text path) (parser.Parser.readRestOfWhitespaceLine fuel (goParser text path cb s))
+      (readRestOfWhitespaceLine s) := by
+  unfold parser.Parser.readRestOfWhitespaceLine readRestOfWhitespaceLine
+  simp only [goParser_Scanner, go_Scope]
+  scall (ReadWhile_agrees (path := path) h.1 h.2 pred_isWhitespace), h, (readWhile_ext _ _) => x1 s1 hm1 h1
+  simp only [decide_eq_true_eq, cur_eof' h1]
+  by_cases hE : atEOF s1 = true
+  · simp only [hE, if_true]; exact agree_ok rfl rfl rfl
+  · simp only [hE, if_false, Bool.false_eq_true]
+    scall (ReadCharacter_lit (path := path) h1.1 10 10 rfl (by decide)), h1, (readCharacter_ext _ _) => x2 s2 hm2 h2
+    exact agree_ok rfl rfl rfl
+
+/-- `Parser.readComment` -/
+theorem readComment_agrees (h : Inv text fuel s) :
+    Agree text path cb (goRange text path) (parser.Parser.readComment fuel (goParser text path cb s)) (readComment s) := by
+  unfold parser.Parser.readComment readComment
+  simp only [goParser_Scanner, go_Scope]
+  have hq : ∀ t ∈ ["*", "//", "#"], Plain t := by decide
+  have hA := ReadAlternative_agrees (path := path) h.1 ["*", "//", "#"] hq
+  simp only [List.map_cons, List.map_nil] at hA
+  rw [hA.1]
+  cases hm : readAlternative ["*", "//", "#"] s with
+  | err e s1 =>
+    have hne := hA.2.2 e s1 hm
+    simp only [Res.map, goResR]
+    call_err hne
+  | ok rt s1 =>
+    have h1 : Inv text fuel s1 := h.ext (ext_of_ok (readAlternative_ext _ _) hm)
+    simp only [Res.map, goResR]
+    go_ok
+    scall (ReadWhile_agrees (path := path) h1.1 h1.2 pred_notNewlineOrEOF), h1, (readWhile_ext _ _) => x2 s2 hm2 h2
+    exact agree_ok rfl rfl rfl
+
+/-! ### conversions of the syntax tree -/
+
+def goCommodity (text : Bytes) (path : String) (c : Syntax.Commodity) : directives.Commodity := ⟨goRange text path c.range⟩
+def goDate (text : Bytes) (path : String) (d : Syntax.Date) : directives.Date := ⟨goRange text path d.range⟩
+def goDecimal (text : Bytes) (path : String) (d : Syntax.Decimal) : directives.Decimal := ⟨goRange text path d.range⟩
+def goInterval (text : Bytes) (path : String) (d : Syntax.Interval) : directives.Interval := ⟨goRange text path d.range⟩
+def goAccount (text : Bytes) (path : String) (a : Syntax.Account) : directives.Account := ⟨goRange text path a.range, a.isMacro⟩
+def goQuoted (text : Bytes) (path : String) (q : Syntax.QuotedString) : directives.QuotedString :=
+  ⟨goRange text path q.range, goRange text path q.content⟩
+
+/-! ### the leaf parsers -/
+
+/-- `Parser.parseCommodity` -/
+theorem parseCommodity_agrees (h : Inv text fuel s) :
+    Agree text path cb (goCommodity text path) (parser.Parser.parseCommodity fuel (goParser text path cb s)) (parseCommodity s) := by
+  unfold parser.Parser.parseCommodity parseCommodity
+  simp only [goParser_Scanner, go_Scope]
+  scall (ReadWhile1_agrees (path := path) h.1 h.2 "a letter or a digit" pred_isAlphanumeric), h, (readWhile1_ext _ _ _) => x1 s1 hm1 h1
+  exact agree_ok rfl rfl rfl
+
+/-- `Parser.parseQuotedString` -/
+theorem parseQuotedString_agrees (h : Inv text fuel s) :
+    Agree text path cb (goQuoted text path) (parser.Parser.parseQuotedString fuel (goParser text path cb s)) (parseQuotedString s) := by
+  unfold parser.Parser.parseQuotedString parseQuotedString
+  simp only [goParser_Scanner, go_Scope]
+  have hp : PredAgrees (fun r : Int => !decide (r = (34 : Int))) (fun r => r != 34) := pred_ne 34 (by decide)
+  scall (ReadCharacter_lit (path := path) h.1 34 34 rfl (by decide)), h, (readCharacter_ext _ _) => x1 s1 hm1 h1
+  scall (ReadWhile_agrees (path := path) h1.1 h1.2 hp), h1, (readWhile_ext _ _) => x2 s2 hm2 h2
+  scall (ReadCharacter_lit (path := path) h2.1 34 34 rfl (by decide)), h2, (readCharacter_ext _ _) => x3 s3 hm3 h3
+  exact agree_ok rfl rfl rfl
+
+/-- `Parser.parseInterval` -/
+theorem parseInterval_agrees (h : Inv text fuel s) :
+    Agree text path cb (goInterval text path) (parser.Parser.parseInterval (goParser text path cb s)) (parseInterval s) := by
+  unfold parser.Parser.parseInterval parseInterval
+  simp only [goParser_Scanner, go_Scope]
+  have hq : ∀ t ∈ ["daily", "weekly", "monthly", "quarterly"], Plain t := by decide
+  have hA := ReadAlternative_agrees (path := path) h.1 ["daily", "weekly", "monthly", "quarterly"] hq
+  simp only [List.map_cons, List.map_nil] at hA
+  rw [hA.1]
+  cases hm : readAlternative ["daily", "weekly", "monthly", "quarterly"] s with
+  | err e s1 =>
+    have hne := hA.2.2 e s1 hm
+    simp only [Res.map, goResR]
+    call_err hne
+  | ok rt s1 =>
+    simp only [Res.map, goResR]
+    go_ok; exact agree_ok rfl rfl rfl
+
+/-- `Parser.parseDecimal` -/
+theorem parseDecimal_agrees (h : Inv text fuel s) :
+    Agree text path cb (goDecimal text path) (parser.Parser.parseDecimal fuel (goParser text path cb s)) (parseDecimal s) := by
+  unfold parser.Parser.parseDecimal parseDecimal
+  simp only [goParser_Scanner, go_Scope, go_Current, decide_eq_true_eq]
+  refine agree_flow (fuel := fuel) (emb := fun (_ : Unit) s1 => goParser text path cb s1) ?_ ?_ (fun _ => rfl)
+  · -- the optional sign
+    simp only [cur_eq_lit h.1 45 45 rfl (by decide)]
+    by_cases hc : cur s = 45
+    · have hb : (cur s == 45) = true := by simp [hc]
+      simp only [hc, if_true, hb]
+      scall (ReadCharacter_lit (path := path) h.1 45 45 rfl (by decide)), h, (readCharacter_ext _ _) => x1 s1 hm1 h1
+      exact flow_ok rfl h1
+    · have hb : (cur s == 45) = false := by simpa using hc
+      simp only [hc, hb, Bool.false_eq_true, if_false]
+      exact flow_ok rfl h
+  · -- the digits
+    intro _ s1 h1 _
+    simp only [goParser_Scanner]
+    scall (ReadWhile1_agrees (path := path) h1.1 h1.2 "a digit" pred_IsDigit), h1, (readWhile1_ext _ _ _) => x2 s2 hm2 h2
+    simp only [decide_eq_true_eq, cur_eq_lit h2.1 46 46 rfl (by decide)]
+    by_cases hd : cur s2 = 46
+    · have hb : (cur s2 != 46) = false := by simp [hd]
+      simp only [hd, not_true_eq_false, decide_false, Bool.false_eq_true, if_false, hb]
+      scall (ReadCharacter_lit (path := path) h2.1 46 46 rfl (by decide)), h2, (readCharacter_ext _ _) => x3 s3 hm3 h3
+      scall (ReadWhile1_agrees (path := path) h3.1 h3.2 "a digit" pred_IsDigit), h3, (readWhile1_ext _ _ _) => x4 s4 hm4 h4
+      exact agree_ok rfl rfl rfl
+    · have hb : (cur s2 != 46) = true := by simpa using hd
+      simp only [hd, not_false_eq_true, decide_true, if_true, hb]
+      exact agree_ok rfl rfl rfl
+
+/-- the loop of `parseAccount` is `accountLoop` -/
+theorem parseAccount_loop_agrees (start : Nat) :
+    ∀ (n : Nat) (s1 : St), Inv text fuel s1 → s1.toks.length < n →
+      Agree text path cb (goAccount text path)
+        (parser.Parser.parseAccount.loop1 fuel ⟨Syn.lit "parsing account", (start : Int)⟩ n (goParser text path cb s1))
+        (accountLoop start s1) := by
+  intro n
+  induction n with
+  | zero => intro s1 _ hn; omega
+  | succ n ih =>
+    intro s1 h1 hn
+    unfold parser.Parser.parseAccount.loop1
+    rw [accountLoop_eq]
+    simp only [goParser_Scanner, go_Current, go_Range, decide_eq_true_eq, cur_eq_lit h1.1 58 58 rfl (by decide)]
+    by_cases hd : cur s1 = 58
+    · have hb : (cur s1 != 58) = false := by simp [hd]
+      simp only [hd, not_true_eq_false, decide_false, Bool.false_eq_true, if_false, hb]
+      scall (ReadCharacter_lit (path := path) h1.1 58 58 rfl (by decide)), h1, (readCharacter_ext _ _) => x2 s2 hm2 h2
+      scall (ReadWhile1_agrees (path := path) h2.1 h2.2 "a letter or a digit" pred_isAlphanumeric), h2, (readWhile1_ext _ _ _) => x3 s3 hm3 h3
+      have l2 := (readCharacter_extS _ _ _ _ hm2).length_lt
+      have l3 := (ext_of_ok (readWhile1_ext _ _ _) hm3).length_le
+      exact ih s3 h3 (by omega)
+    · have hb : (cur s1 != 58) = true := by simpa using hd
+      simp only [hd, not_false_eq_true, decide_true, if_true, hb]
+      exact agree_ok rfl rfl rfl
+
+/-- `Parser.parseAccount` -/
+theorem parseAccount_agrees (h : Inv text fuel s) :
+    Agree text path cb (goAccount text path) (parser.Parser.parseAccount fuel (goParser text path cb s)) (parseAccount s) := by
+  unfold parser.Parser.parseAccount parseAccount
+  simp only [goParser_Scanner, go_Scope, go_Current, decide_eq_true_eq, cur_eq_lit h.1 36 36 rfl (by decide)]
+  by_cases hd : cur s = 36
+  · have hb : (cur s == 36) = true := by simp [hd]
+    simp only [hd, if_true, hb]
+    scall (ReadCharacter_lit (path := path) h.1 36 36 rfl (by decide)), h, (readCharacter_ext _ _) => x2 s2 hm2 h2
+    scall (ReadWhile1_agrees (path := path) h2.1 h2.2 "a letter" pred_IsLetter), h2, (readWhile1_ext _ _ _) => x3 s3 hm3 h3
+    exact agree_ok rfl rfl rfl
+  · have hb : (cur s == 36) = false := by simpa using hd
+    simp only [hd, hb, Bool.false_eq_true, if_false]
+    scall (ReadWhile1_agrees (path := path) h.1 h.2 "a letter or a digit" pred_isAlphanumeric), h, (readWhile1_ext _ _ _) => x3 s3 hm3 h3
+    exact parseAccount_loop_agrees s.off fuel s3 h3 h3.2
+
+/-! ### parseDate -/
+
+/-- `k` digits, each error decorated -/
+def digitsA (desc : String) (start : Nat) : Nat → St → Res Unit
+  | 0, s => .ok () s
+  | k + 1, s => (readCharacterWith "a digit" isDigit s).bind (annotate desc start) fun _ s => digitsA desc start k s
+
+theorem digitsA_ext (desc : String) (start : Nat) : ∀ (k : Nat) (s : St), Ext s (digitsA desc start k s).st := by
+  intro k
+  induction k with
+  | zero => intro s; exact Ext.refl _
+  | succ k ih =>
+    intro s
+    simp only [digitsA]
+    exact Res.bind_ext (readCharacterWith_ext _ _ _) fun _ s1 _ => ih s1
+
+theorem parseDate_loop1_agrees (start : Nat) :
+    ∀ (k : Nat) (n : Nat) (s1 : St), k ≤ 4 → Inv text fuel s1 → s1.toks.length < n →
+      FlowAgree (β := directives.Date) text path cb fuel (fun (_ : Unit) s' => (goParser text path cb s', (4 : Int)))
+        (parser.Parser.parseDate.loop1 fuel ⟨Syn.lit "parsing the date", (start : Int)⟩ n (goParser text path cb s1) ((4 - k : Nat) : Int))
+        (digitsA "parsing the date" start k s1) := by
+  intro k
+  induction k with
+  | zero =>
+    intro n s1 _ h1 _
+    unfold parser.Parser.parseDate.loop1
+    simp only [digitsA, Nat.sub_zero, Int.lt_irrefl, decide_false, Bool.false_eq_true, if_false]
+    exact flow_ok rfl h1
+  | succ k ih =>
+    intro n s1 hk h1 hn
+    unfold parser.Parser.parseDate.loop1
+    have hlt : ((4 - (k + 1) : Nat) : Int) < 4 := by omega
+    simp only [hlt, decide_true, if_true, digitsA]
+    obtain ⟨n', rfl⟩ : ∃ n', n = n' + 1 := ⟨n - 1, by omega⟩
+    simp only [goParser_Scanner]
+    scall (ReadCharacterWith_agrees (path := path) h1.1 "a digit" pred_IsDigit), h1, (readCharacterWith_ext _ _ _) => x2 s2 hm2 h2
+    have l2 := (readCharacterWith_extS _ _ _ _ _ hm2).length_lt
+    have hi : ((4 - (k + 1) : Nat) : Int) + 1 = ((4 - k : Nat) : Int) := by omega
+    rw [hi]
+    exact ih n' s2 (by omega) h2 (by omega)
+
+theorem parseDate_loop3_agrees (start : Nat) :
+    ∀ (k : Nat) (n : Nat) (s1 : St), k ≤ 2 → Inv text fuel s1 → s1.toks.length < n →
+      FlowAgree (β := directives.Date) text path cb fuel (fun (_ : Unit) s' => (goParser text path cb s', (2 : Int)))
+        (parser.Parser.parseDate.loop3 fuel ⟨Syn.lit "parsing the date", (start : Int)⟩ n (goParser text path cb s1) ((2 - k : Nat) : Int))
+        (digitsA "parsing the date" start k s1) := by
+  intro k
+  induction k with
+  | zero =>
+    intro n s1 _ h1 _
+    unfold parser.Parser.parseDate.loop3
+    simp only [digitsA, Nat.sub_zero, Int.lt_irrefl, decide_false, Bool.false_eq_true, if_false]
+    exact flow_ok rfl h1
+  | succ k ih =>
+    intro n s1 hk h1 hn
+    unfold parser.Parser.parseDate.loop3
+    have hlt : ((2 - (k + 1) : Nat) : Int) < 2 := by omega
+    simp only [hlt, decide_true, if_true, digitsA]
+    obtain ⟨n', rfl⟩ : ∃ n', n = n' + 1 := ⟨n - 1, by omega⟩
+    simp only [goParser_Scanner]
+    scall (ReadCharacterWith_agrees (path := path) h1.1 "a digit" pred_IsDigit), h1, (readCharacterWith_ext _ _ _) => x2 s2 hm2 h2
+    have l2 := (readCharacterWith_extS _ _ _ _ _ hm2).length_lt
+    have hi : ((2 - (k + 1) : Nat) : Int) + 1 = ((2 - k : Nat) : Int) := by omega
+    rw [hi]
+    exact ih n' s2 (by omega) h2 (by omega)
+
+/-- `k` groups `-dd` -/
+def dashDigitsA (desc : String) (start : Nat) : Nat → St → Res Unit
+  | 0, s => .ok () s
+  | k + 1, s =>
+    (readCharacter 45 s).bind (annotate desc start) fun _ s =>
+    (digitsA desc start 2 s).bind (fun e _ => e) fun _ s => dashDigitsA desc start k s
+
+theorem parseDate_loop2_agrees (start : Nat) :
+    ∀ (k : Nat) (n : Nat) (s1 : St), k ≤ 2 → Inv text fuel s1 → s1.toks.length < n →
+      FlowAgree (β := directives.Date) text path cb fuel (fun (_ : Unit) s' => (goParser text path cb s', (2 : Int)))
+        (parser.Parser.parseDate.loop2 fuel ⟨Syn.lit "parsing the date", (start : Int)⟩ n (goParser text path cb s1) ((2 - k : Nat) : Int))
+        (dashDigitsA "parsing the date" start k s1) := by
+  intro k
+  induction k with
+  | zero =>
+    intro n s1 _ h1 _
+    unfold parser.Parser.parseDate.loop2
+    simp only [dashDigitsA, Nat.sub_zero, Int.lt_irrefl, decide_false, Bool.false_eq_true, if_false]
+    exact flow_ok rfl h1
+  | succ k ih =>
+    intro n s1 hk h1 hn
+    unfold parser.Parser.parseDate.loop2
+    have hlt : ((2 - (k + 1) : Nat) : Int) < 2 := by omega
+    simp only [hlt, decide_true, if_true, dashDigitsA]
+    obtain ⟨n', rfl⟩ : ∃ n', n = n' + 1 := ⟨n - 1, by omega⟩
+    simp only [goParser_Scanner]
+    scall (ReadCharacter_lit (path := path) h1.1 45 45 rfl (by decide)), h1, (readCharacter_ext _ _) => x2 s2 hm2 h2
+    have l2 := (readCharacter_extS _ _ _ _ hm2).length_lt
+    have h3' := parseDate_loop3_agrees (text := text) (path := path) (cb := cb) start 2 fuel s2 (by omega) h2 h2.2
+    change FlowAgree _ _ _ _ _ (parser.Parser.parseDate.loop3 _ _ _ _ (0 : Int)) _ at h3'
+    refine flow_flow h3' ?_ (fun _ => rfl)
+    intro _ s3 h3 hm3
+    have l3 := (ext_of_ok (digitsA_ext _ _ _ _) hm3).length_le
+    have hi : ((2 - (k + 1) : Nat) : Int) + 1 = ((2 - k : Nat) : Int) := by omega
+    simp only [hi]
+    exact ih n' s3 (by omega) h3 (by omega)
+
+theorem parseDate_eq (s : St) : parseDate s =
+    (digitsA "parsing the date" s.off 4 s).bind (fun e _ => e) fun _ s1 =>
+    (dashDigitsA "parsing the date" s.off 2 s1).bind (fun e _ => e) fun _ s2 => .ok ⟨rng s.off s2⟩ s2 := by
+  simp only [parseDate, digitsA, dashDigitsA, Res.bind_assoc_id, rbind_ok]
+
+/-- `Parser.parseDate` -/
+theorem parseDate_agrees (h : Inv text fuel s) :
+    Agree text path cb (goDate text path) (parser.Parser.parseDate fuel (goParser text path cb s)) (parseDate s) := by
+  rw [parseDate_eq]
+  unfold parser.Parser.parseDate
+  simp only [goParser_Scanner, go_Scope]
+  refine agree_flow (parseDate_loop1_agrees s.off 4 fuel s (by omega) h h.2) ?_ (fun _ => rfl)
+  intro _ s1 h1 _
+  simp only
+  refine agree_flow (parseDate_loop2_agrees s.off 2 fuel s1 (by omega) h1 h1.2) ?_ (fun _ => rfl)
+  intro _ s2 h2 _
+  simp only [goParser_Scanner, go_Range]
+  exact agree_ok rfl rfl rfl
+
+end
+
 end Knut.FactsAgree.TransParser
